@@ -248,7 +248,7 @@ func decodePointsCompressed(d *decoder, level int, target []Point) {
 		if d.err != nil {
 			return
 		}
-		if idx >= len(target) {
+		if idx < 0 || idx >= len(target) {
 			d.err = fmt.Errorf("off center index = %d, should be < len(target) = %d", idx, len(target))
 			return
 		}
